@@ -130,6 +130,9 @@ def ob_assemble(ctx):
     # the linearisation the implementation is known to use goes first (cheap witness)
     lin = cat(*[cat(o[i], ts[i]) for i in range(c)] + [o[c], vb])
     ctx.require_exists(seq_eq(d, lin), lambda: Or(alts), "product-is-not-the-documented-circular-word")
+    # the same objects assembled again (a library built in one destination vector) give the same plasmid
+    again = vec.assemble(*[mods[i] for i in order], id="prod", name="prod")
+    ctx.require(seq_eq(again.seq, d), "second-assembly-of-the-same-objects-differs")
     return True
 
 
